@@ -498,16 +498,21 @@ osSubdir(String buffer, String relativeTo, String subdir)
 Bool
 osFnameDirEqual(String dir1, String dir2)
 {
-	/* Strip off explicit leading current directories. */
+	/*
+	 * Strip off explicit leading current directories: a component that is
+	 * exactly "." (not the first character of ".." or of ".name").
+	 */
+#define osIsCurDirPart(d) ((d)[0] == FCURDIR && ((d)[1] == 0 || (d)[1] == FDIRSEP || \
+			   (FDIRSEPALT && (d)[1] == FDIRSEPALT)))
 
-	while (*dir1 == FCURDIR || *dir2 == FCURDIR) {
-		if (*dir1 == FCURDIR) {
+	while (osIsCurDirPart(dir1) || osIsCurDirPart(dir2)) {
+		if (osIsCurDirPart(dir1)) {
 			dir1++;
-			if (*dir1 == FDIRSEP || (FDIRSEPALT && *dir1 == FDIRSEPALT)) dir1++;
+			if (*dir1) dir1++;
 		}
-		if (*dir2 == FCURDIR) {
+		if (osIsCurDirPart(dir2)) {
 			dir2++;
-			if (*dir2 == FDIRSEP || (FDIRSEPALT && *dir2 == FDIRSEPALT)) dir2++;
+			if (*dir2) dir2++;
 		}
 	}
 	return !strcmp(dir1, dir2);
